@@ -13,6 +13,7 @@ Goals, per class and per field:
   xgrid      XGrid.load(g.dump()) == g with the same log flag
   default    TheoryCard.matching_order defaults to (order[0]-1, 0)
   interp     commons.interpolator(card): .log == configs.interpolation_is_log, .polynomial_degree == declared degree,
+             .xgrid.raw == card.xgrid.raw (same nodes),
              every basis function is built with mode_log == interpolation_is_log, every block spans `degree` points
 """
 import dataclasses
@@ -627,6 +628,12 @@ def case_interpolator(log, var):
         v = prove_formula(c.formula() if not c.mismatch else z3.BoolVal(False),
                           "interpolator(card).polynomial_degree == card.configs.interpolation_polynomial_degree")
         _decide(log, v, key="interpolator:degree", replay=(MOD, "replay_interpolator", dict(rk, aspect="degree")), candidates=[{}])
+        # the interpolator sits on the card's nodes
+        c = CS.Cmp()
+        c.same(disp.xgrid.raw, card.xgrid.raw, "interpolator.xgrid.raw")
+        v = prove_formula(c.formula() if not c.mismatch else z3.BoolVal(False),
+                          "interpolator(card).xgrid.raw == card.xgrid.raw (the nodes of the interpolator are the card's nodes)%s" % (c.mismatch[:1] or ""))
+        _decide(log, v, key="interpolator:nodes", replay=(MOD, "replay_interpolator", dict(rk, aspect="nodes")), candidates=[{}])
         c = CS.Cmp()
         for bf in _BasisRecorder.made:
             c.leaf(bf._mode_log, is_log, "basis.mode_log")
@@ -1004,6 +1011,10 @@ def replay_interpolator(point, var, aspect="log"):
     disp = commons.interpolator(card)
     if aspect == "log" and bool(disp.log) != is_log:
         return {"detail": "%s: commons.interpolator(card).log = %r" % (origin, disp.log)}
+    if aspect == "nodes":
+        got, want = np.asarray(disp.xgrid.raw, dtype=float), np.asarray(card.xgrid.raw, dtype=float)
+        if got.shape != want.shape or not np.allclose(got, want, rtol=1e-10, atol=0.0):
+            return {"detail": "%s: the interpolator's nodes are %r, the card's grid is %r" % (origin, got.tolist(), want.tolist())}
     if aspect == "degree" and int(disp.polynomial_degree) != deg:
         return {"detail": "%s: commons.interpolator(card).polynomial_degree = %r" % (origin, disp.polynomial_degree)}
     if aspect == "basis":
